@@ -208,9 +208,10 @@ Definition cfg_only_on_items (T : crate_table) : bool :=
   forallb (fun o => kind_allowed (o_kind o) || feature_free (o_pred o)) (c_cfgs T)
   && match c_cfg_macros T with [] => true | _ => false end.
 
+(* no negation of anything that names a feature (not(test) and the like are constants of the quantifier) *)
 Fixpoint gate_positive (g : gate) : bool :=
   match g with
-  | GNot _ => false
+  | GNot a => feature_free a
   | GAnd a b | GOr a b => gate_positive a && gate_positive b
   | _ => true
   end.
